@@ -19,7 +19,7 @@ LOGQ = 'self._logger_queue_'
 def run(ck: Checker):
     ck.rule('C20-1', 'the end marker of the parent log reader follows the last record: the parent enqueues None only on paths that have observed the child dead (or the child does, after removing its handler) (PRECEDE+WHO)')
     ck.rule('C20-2', 'the queue handler brackets the target: installed before the target runs, removed and the queue closed on every exit; failures are reported before the result is sent (MUSTPASS)', minimum=3)
-    ck.rule('C20-3', 'single reader: only the logger thread reads the log queue; exactly one logger thread is started on every path of start(); records are gated only by level (WHO)', minimum=3)
+    ck.rule('C20-3', 'single reader: only the logger thread reads the log queue; exactly one logger thread is started on every path of start(); records are gated only by level; the log queue is unbounded and its reader is not a forced daemon (WHO)', minimum=5)
     cls = ck.repo.cls(CONTEXT, 'SpawnProcess')
     # ------------------------------------------------------------------ C20-1
     n1 = 0
@@ -107,8 +107,20 @@ def run(ck: Checker):
         for n in walk_shallow_func(fn.node):
             if isinstance(n, ast.Call) and method_of(n)[1] in ('get', 'get_nowait') and method_of(n)[0] is not None and scf.canon(method_of(n)[0]) == LOGQ:
                 readers.append((fn, n))
+    # the log queue is unbounded: logging.handlers.QueueHandler enqueues with put_nowait and drops the record on Full
+    init = cls.method('__init__')
+    qc = [n for n in walk_shallow_func(init.node) if isinstance(n, ast.Assign) and isinstance(n.value, ast.Call) and (dotted(n.value.func) or '').endswith('Queue') and isinstance(n.targets[0], ast.Name) and 'logger' in n.targets[0].id]
+    ck.need(qc, f'{init.key}: construction of the log queue not found')
+    qcall = qc[0].value
+    bound = qcall.args[0] if qcall.args else next((k.value for k in qcall.keywords if k.arg == 'maxsize'), None)
+    okq = bound is None or (isinstance(bound, ast.Constant) and isinstance(bound.value, int) and bound.value <= 0)
+    ck.ob('C20-3', init, qc[0], okq, 'the log queue is unbounded: the child\'s QueueHandler (put_nowait) never finds it full' if okq else f'the log queue is bounded (`{norm_text(bound)}`): QueueHandler enqueues with put_nowait, so records emitted while the queue is full are silently dropped')
     st = cls.method('start')
     sps = [sp for sp in spawn_sites(st) if sp.target is not None and sp.target.name == '_run_logger']
+    if sps:
+        dm = kwarg(sps[0].call, 'daemon')
+        okd = not (isinstance(dm, ast.Constant) and dm.value is True)
+        ck.ob('C20-3', st, (sps[0].call.lineno, 'logger thread daemon flag'), okd, 'the logger thread is not forced to be a daemon: records still queued when the interpreter exits are handled before the thread ends' if okd else 'the logger thread is always a daemon: it is killed at interpreter shutdown with the tail of the child\'s records still unhandled')
     ok = not readers and len(sps) == 1 and not sps[0].in_loop
     bound = None
     if sps:
